@@ -104,7 +104,7 @@ T_STALL = 0.1       # relay timeouts in cases where the script makes the relay w
 T_FAST = 0.3        # relay timeouts elsewhere (nothing in the script makes the relay wait), batch screen
 T_ALONE = 1.0       # ... the same in the isolated (authoritative / replay) execution
 K = 8               # watchdog = K x timeout, plus a grace period of K/2 x timeout (see run_attempt)
-BATCH = {'smtp': 40, 'mx': 20, 'http': 20, 'pipe': 8}
+BATCH = {'smtp': 40, 'mx': 20, 'http': 10, 'pipe': 8}
 NMULTI = {'quick': 1500, 'thorough': 60000}     # seeded double / triple fault scripts
 CONFIRM_EACH = 4    # isolated confirmations per mechanism and shard before batch sightings are taken as seen
 
@@ -909,7 +909,8 @@ def exec_http(case, alone=False):
     uid = _uid()
     path = '/c11/%d' % uid
     ent = {'script': case['script'], 'requests': []}
-    T = T_STALL            # loopback HTTP: keeps the isolated confirmation of hangs affordable
+    # stall cases wait for the relay's timeout; elsewhere the timeout only bounds a relay that hangs
+    T = T_STALL if case.get('slow') else T_ALONE if alone else T_FAST
     if case.get('refused'):
         url = 'http://127.0.0.1:%d%s' % (refused_port, path)
     else:
@@ -1466,11 +1467,19 @@ def run_case(case, R):
             continue
         for mech in set(mech for mech, _, _ in V2):
             conf[mech] += 1
-        lost = set(mech for mech, _, _ in V1) - set(mech for mech, _, _ in V2)
+        def names(V):
+            return set((mech + ':' + '/'.join(what.split('/')[:2])) if mech == 'inconclusive' else mech for mech, what, _ in V)
+        lost = names(V1) - names(V2)
         for mech in sorted(lost):
+            # The isolated execution is the verdict on this case.  A batch-only sighting that a late timer can
+            # explain (watchdog, a relay timeout firing on a busy hub => transient instead of the scripted
+            # outcome) is a false positive of the screen: counted.  One that timing cannot explain (delivered
+            # without acceptance, wrong exception / result type) is kept as inconclusive.
             part = mech.split('/')
-            R.inconclusive('seen-in-batch-not-reproduced-alone/' + (part[1] if part[0] == 'unclassified' else part[0]))
-            R.count('not-reproduced-alone/' + mech)
+            clause = part[1] if part[0] == 'unclassified' else part[0]
+            R.count('screen-only-sighting/' + mech)
+            if clause.startswith(('unsafe-delivered', 'type')):
+                R.inconclusive('seen-in-batch-not-reproduced-alone/' + clause)
     for name, n in _G['crashes'].items():
         d = n - crashes0.get(name, 0)
         if d:
